@@ -41,6 +41,7 @@ def plan(tier, seed):
     q = tier == "quick"
     n = 12 if q else 28
     specs = [{"kind": "meta", "i": i, "count": 30 if q else 220} for i in range(n)]
+    specs += [{"kind": "mirror_exh", "i": i, "n": 8 if q else 16, "ncost": 2 if q else 6} for i in range(8 if q else 16)]
     # determinism batch: the same cases in fresh processes with different hash seeds
     for hs in ([0, 1, 2, 12345] if q else [0, 1, 2, 3, 77, 4242, 31337, 99991, 5, 6, 7, 8]):
         specs.append({"kind": "det", "batch": 24 if q else 200, "_hashseed": hs, "_canaries": False})
@@ -139,6 +140,7 @@ def random_case(rng, algo, max_obj=10, max_sp=8, max_fam=4):
             case["algo"] = algo
         if case["costs"]["floss"] == 0 and rng.random() < 0.7:
             case["costs"]["floss"] = 1  # floss=0 makes optimal sets explode; keep some
+        case["costs"] = gen.tame(case["costs"], len(case["leafmap"]))
         if dtl.coherent(num_cost(case["costs"])):
             return case
     return case
@@ -295,7 +297,48 @@ def canaries(ctx):
         raise Inconclusive("C09 canary failed")
 
 
+def mirror_all(nested):
+    return nested if isinstance(nested, str) else [mirror_all(c) for c in reversed(nested)]
+
+
+def mirror_exh(ctx, spec):
+    """Bounded-exhaustive child-order relation: every 4x4 input (canonical child order) against its three fully
+    mirrored presentations, loss-heavy cost vectors (a deep placement ties with a transfer), plain DTL solver."""
+    from rv.props.C05 import LOSS_HEAVY
+
+    idx = 0
+    for Gn, Sn, lm in gen.exhaustive_inputs(4, 4, mirrored=False):
+        if len(lm) < 3 or isinstance(Sn, str):
+            continue
+        for c in LOSS_HEAVY[: spec["ncost"]]:
+            idx += 1
+            if idx % spec["n"] != spec["i"]:
+                continue
+            case = {"algo": "thl", "G": Gn, "S": Sn, "leafmap": lm, "costs": c}
+            base = solve(case)
+            ctx.count("evaluations")
+            if base["exc"]:
+                ctx.viol("C09.total", case, f"thl raised: {base['exc']}")
+                continue
+            for name, g2, s2 in (("species", Gn, mirror_all(Sn)), ("object", mirror_all(Gn), Sn), ("both", mirror_all(Gn), mirror_all(Sn))):
+                c2 = dict(case, G=g2, S=s2)
+                r = solve(c2)
+                ctx.count("evaluations")
+                ctx.count("mon.reorder")
+                ctx.count("mon.mirror_exh")
+                if r["exc"]:
+                    ctx.viol("C09.reorder", dict(case, relation="reorder", transformed=c2), f"thl raised after mirroring: {r['exc']}")
+                elif r["min"] != base["min"] or r["set"] != base["set"]:
+                    ctx.viol("C09.reorder", dict(case, relation="reorder", transformed=c2),
+                             f"thl: mirroring the children of the {name} tree(s) changed the result (min {base['min']} -> {r['min']}, {len(base['set'])} -> {len(r['set'])} optimal solutions, {len(base['set'] ^ r['set'])} differ)")
+            ctx.sig(("mirror", len(lm), base["min"], min(base["n"], 9), c["floss"], c["dup"]), base["n"] >= 2)
+            if ctx.too_many():
+                return
+
+
 def run(ctx, spec):
+    if spec["kind"] == "mirror_exh":
+        return mirror_exh(ctx, spec)
     if spec["kind"] == "meta":
         rng = ctx.rng("meta")
         for k in range(spec["count"]):
